@@ -1207,6 +1207,69 @@ pub fn run_c16(cfg: &Cfg) -> Report {
             Ok(b) => cx.violation(format!("malformed UUID {:?} is accepted", s), obj(vec![("emitted", hex(&b).into())])),
         }
     }));
+    // non-ASCII characters in a UUID of 36 *characters*: code points whose low byte (or low 7 bits) is
+    // an ASCII hex digit or '-', Unicode decimal digits, hyphen look-alikes -- at every position
+    let lookalikes: Vec<char> = {
+        let mut v: Vec<char> = Vec::new();
+        for c in "0123456789abcdefABCDEF-".chars() {
+            for k in [0x80u32, 0x100, 0x200, 0x400, 0x4E00, 0xFF00, 0x1_0000, 0x1_D700] {
+                if let Some(ch) = char::from_u32(c as u32 + k) {
+                    v.push(ch);
+                }
+            }
+        }
+        v.extend(['\u{ff10}', '\u{ff21}', '\u{ff41}', '\u{661}', '\u{1d7d8}', '\u{2010}', '\u{2212}', '\u{ff0d}', '\u{e9}']);
+        v
+    };
+    let nl = lookalikes.len() as u64;
+    rep.merge(par_cases(cfg, "uuid.non_ascii", 36 * nl, |cx| {
+        let mut r = cx.rng.clone();
+        let good: Vec<char> = gen_uuid(&mut r).chars().collect();
+        let pos = (cx.idx / nl) as usize;
+        let ch = lookalikes[(cx.idx % nl) as usize];
+        let s: String = good.iter().enumerate().map(|(i, c)| if i == pos { ch } else { *c }).collect();
+        cx.eval();
+        cx.obs();
+        match catches(|| to_vec(&aml::Uuid::new(&s))) {
+            Err(_) => {
+                cx.rep.cov("non_ascii_uuid_refused");
+                cx.rep.distinct(&s);
+            }
+            Ok(b) => cx.violation(format!("malformed UUID {:?} (non-ASCII character U+{:04X} at position {}) is accepted", s, ch as u32, pos), obj(vec![("emitted", hex(&b).into())])),
+        }
+    }));
+    // the same for EISA ids: at each of the 7 positions, keeping 7 characters (more than 7 bytes), and,
+    // for 2-byte characters, also keeping 7 bytes (6 characters)
+    rep.merge(par_cases(cfg, "eisa.non_ascii", 7 * nl * 2, |cx| {
+        let mut r = cx.rng.clone();
+        let good: Vec<char> = gen_eisa(&mut r).chars().collect();
+        let keep_bytes = cx.idx % 2 == 1;
+        let i = cx.idx / 2;
+        let pos = (i / nl) as usize;
+        let ch = lookalikes[(i % nl) as usize];
+        let mut before: Vec<char> = good[..pos].to_vec();
+        let mut after: Vec<char> = good[pos + 1..].to_vec();
+        if keep_bytes {
+            // drop following (then preceding) characters until the byte length is 7 again, if possible
+            for _ in 1..ch.len_utf8() {
+                if !after.is_empty() {
+                    after.remove(0);
+                } else if !before.is_empty() {
+                    before.pop();
+                }
+            }
+        }
+        let s: String = before.into_iter().chain(std::iter::once(ch)).chain(after).collect();
+        cx.eval();
+        cx.obs();
+        match catches(|| to_vec(&aml::EISAName::new(&s))) {
+            Err(_) => {
+                cx.rep.cov("non_ascii_eisa_refused");
+                cx.rep.distinct(&s);
+            }
+            Ok(b) => cx.violation(format!("malformed EISA id {:?} (non-ASCII character U+{:04X}) is accepted", s, ch as u32), obj(vec![("emitted", hex(&b).into())])),
+        }
+    }));
     // separators moved / duplicated / bunched while the length stays 36 and 32 hex digits remain
     rep.merge(par_cases(cfg, "uuid.moved_separators", cfg.scaled(if thorough { 200_000 } else { 20_000 }), |cx| {
         let mut r = cx.rng.clone();
